@@ -1,8 +1,10 @@
 (* C04: format codecs are lossless and equal the format encoding of the basic form.
    encode = ser_F o pack_ls, decode = unpack_ls o parse_F  (Fmt.v), where ls is the effective dialect:
    the format's own dialect merged with the caller's dialect (Dialect.merge).  The model has a class table
-   (nested / inherited-flattened / self-referencing dataclasses, typing.Self), discriminated unions,
-   Any positions, Literal tags, lists, str-keyed mappings, Optional and the text-rendered leaves.
+   (nested / inherited-flattened / self-referencing dataclasses, typing.Self, named tuples, typed dicts), enums,
+   discriminated unions, Any positions, Literal tags, lists / tuples (variable and fixed length) / sets / frozensets,
+   str-keyed mappings,
+   Optional and the text-rendered leaves.
    ser/parse (json, orjson, yaml, msgpack, tomli_w/tomllib), the stdlib leaf codecs and the user's strategy
    pairs are universally quantified functions constrained only by their assumed laws. *)
 From Coq Require Import List String ZArith Bool.
@@ -23,7 +25,7 @@ Print Assumptions C04_roundtrip_refuted.
 Theorem C04_roundtrip_partial :
   forall (render: lkind -> string -> string) (parse_leaf: lkind -> string -> option string)
          (urender: nat -> lkind -> string -> string) (uparse: nat -> lkind -> string -> option string)
-         (leaf_ok: lkind -> string -> bool) (E: env),
+         (leaf_ok: lkind -> string -> bool) (E: env) (EN: enums),
     (forall k p, leaf_ok k p = true -> parse_leaf k (render k p) = Some p) ->
     (forall u k p, leaf_ok k p = true -> uparse u k (urender u k p) = Some p) ->
     forall (doc: Type) (ser: fmt -> bv -> doc) (parse: fmt -> doc -> option bv)
@@ -31,8 +33,8 @@ Theorem C04_roundtrip_partial :
     (forall F b, representable leaf_repr F b = true -> parse F (ser F b) = Some (norm render F b)) ->
     forall ls F t v d,
       coherentb F ls = true ->
-      in_subset render urender leaf_ok E leaf_repr ls F t v -> defaults_ok E ls ->
-      encode render urender E doc ser ls F t v = Ok d -> decode parse_leaf uparse E doc parse ls F t d = Ok v.
+      in_subset render urender leaf_ok E EN leaf_repr ls F t v -> defaults_ok E ls ->
+      encode render urender E EN doc ser ls F t v = Ok d -> decode parse_leaf uparse E EN doc parse ls F t d = Ok v.
 Proof. exact roundtrip. Qed.
 Print Assumptions C04_roundtrip_partial.
 
@@ -45,15 +47,15 @@ Print Assumptions C04_format_dialects_coherent.
    d ~ b  :=  render_natives d = (omit_none ? drop_nulls b : b) *)
 Theorem C04_doc_is_basic :
   forall (render: lkind -> string -> string) (urender: nat -> lkind -> string -> string)
-         (leaf_ok: lkind -> string -> bool) (E: env),
+         (leaf_ok: lkind -> string -> bool) (E: env) (EN: enums),
     (forall k p, render (wire k) p = render k p) ->
     forall (doc: Type) (ser: fmt -> bv -> doc) (parse: fmt -> doc -> option bv)
            (leaf_repr: fmt -> lkind -> string -> bool),
     (forall F b, representable leaf_repr F b = true -> parse F (ser F b) = Some (norm render F b)) ->
     forall ls F t v d,
       (omit_none ls = true -> F = FToml) ->
-      in_subset render urender leaf_ok E leaf_repr ls F t v -> encode render urender E doc ser ls F t v = Ok d ->
-      exists pd bb, parse F d = Some pd /\ pack render urender E (basic_of ls) v "" t = Ok bb /\
+      in_subset render urender leaf_ok E EN leaf_repr ls F t v -> encode render urender E EN doc ser ls F t v = Ok d ->
+      exists pd bb, parse F d = Some pd /\ pack render urender E EN (basic_of ls) v "" t = Ok bb /\
                     approx render (omit_none ls) pd bb.
 Proof. exact doc_is_basic. Qed.
 Print Assumptions C04_doc_is_basic.
@@ -61,15 +63,15 @@ Print Assumptions C04_doc_is_basic.
 (* for json, yaml and orjson the relation is plain equality: nothing is ignored *)
 Theorem C04_doc_exact :
   forall (render: lkind -> string -> string) (urender: nat -> lkind -> string -> string)
-         (leaf_ok: lkind -> string -> bool) (E: env),
+         (leaf_ok: lkind -> string -> bool) (E: env) (EN: enums),
     (forall k p, render (wire k) p = render k p) ->
     forall (doc: Type) (ser: fmt -> bv -> doc) (parse: fmt -> doc -> option bv)
            (leaf_repr: fmt -> lkind -> string -> bool),
     (forall F b, representable leaf_repr F b = true -> parse F (ser F b) = Some (norm render F b)) ->
     forall ls F t v d,
       exact_fmt F = true -> omit_none ls = false ->
-      in_subset render urender leaf_ok E leaf_repr ls F t v -> encode render urender E doc ser ls F t v = Ok d ->
-      exists bb, pack render urender E (basic_of ls) v "" t = Ok bb /\ parse F d = Some bb.
+      in_subset render urender leaf_ok E EN leaf_repr ls F t v -> encode render urender E EN doc ser ls F t v = Ok d ->
+      exists bb, pack render urender E EN (basic_of ls) v "" t = Ok bb /\ parse F d = Some bb.
 Proof. exact doc_exact. Qed.
 Print Assumptions C04_doc_exact.
 
@@ -79,34 +81,47 @@ Definition ex_env : env :=
   [("Node", [("when", (TLeaf KDatetime, false)); ("blob", (TLeaf KBytearray, false)); ("raw", (TLeaf KBytes, false));
              ("opt", (TOpt TInt, true)); ("extra", (TAny, true));
              ("next", (TOpt TSelf, true)); ("kids", (TList (TData "Node"), false));
-             ("shape", (TDiscr "kind" [("c", "Circle"); ("s", "Square")], false))]);
+             ("shape", (TDiscr "kind" [("c", "Circle"); ("s", "Square")], false));
+             ("tags", (TColl CFrozenSet (TEnum "Color"), false)); ("pt", (TNamed "Pt", false)); ("td", (TTyped "Opts", false));
+             ("pair", (TFix "Pair", false))]);
+   ("Pair", [("i0", (TInt, false)); ("i1", (TLeaf KDate, false))]);
+   ("Pt", [("x", (TInt, false)); ("day", (TOpt (TLeaf KDate), true))]);
+   ("Opts", [("a", (TColl CTuple TStr, false)); ("b", (TLeaf KBytes, false))]);
    ("Circle", [("r", (TFloat, false)); ("at", (TLeaf KTime, false)); ("kind", (TLit "c", false))]);
    ("Square", [("side", (TInt, false)); ("kind", (TLit "s", false))])].
 
 Definition ex_leaf : pv :=
   VObj "Node" [("when", VLeaf KDatetime "2021-01-01T00:00:00"); ("blob", VLeaf KBytearray ""); ("raw", VLeaf KBytes "ff");
                ("opt", VInt 7%Z); ("extra", VStr "x"); ("next", VNone); ("kids", VList []);
-               ("shape", VObj "Square" [("side", VInt 2%Z); ("kind", VStr "s")])].
+               ("shape", VObj "Square" [("side", VInt 2%Z); ("kind", VStr "s")]);
+               ("tags", VColl CFrozenSet []); ("pt", VNT "Pt" [VInt 0%Z; VLeaf KDate "2020-01-01"]);
+               ("td", VDict [("a", VColl CTuple []); ("b", VLeaf KBytes "")]);
+               ("pair", VColl CTuple [VInt 1%Z; VLeaf KDate "2020-01-01"])].
 Definition ex_val : pv :=
   VObj "Node" [("when", VLeaf KDatetime "2020-01-02T03:04:05"); ("blob", VLeaf KBytearray "ab"); ("raw", VLeaf KBytes "00");
                ("opt", VNone); ("extra", VList [VInt 1%Z; VDict [("k", VStr "v")]]);
                ("next", ex_leaf); ("kids", VList [ex_leaf]);
-               ("shape", VObj "Circle" [("r", VFloat (FFin 1%Z)); ("at", VLeaf KTime "01:02:03"); ("kind", VStr "c")])].
+               ("shape", VObj "Circle" [("r", VFloat (FFin 1%Z)); ("at", VLeaf KTime "01:02:03"); ("kind", VStr "c")]);
+               ("tags", VColl CFrozenSet [VEnum "Color" "RED"; VEnum "Color" "BLUE"]);
+               ("pt", VNT "Pt" [VInt 3%Z; VLeaf KDate "2020-02-29"]);
+               ("td", VDict [("a", VColl CTuple [VStr "p"; VStr "q"]); ("b", VLeaf KBytes "0a")]);
+               ("pair", VColl CTuple [VInt (-5)%Z; VLeaf KDate "1999-12-31"])].
+Definition ex_enums : enums := [("Color", [("RED", EvStr "r"); ("BLUE", EvInt 2%Z)])].
 
 (* caller's dialect: bytes rendered by user strategy 0 (callable id 2) in both directions *)
 Definition ex_user : udialect := udial_of [(KBytes, EDict (Some 2%nat) (Some 2%nat))].
 
 Example C04_nonvacuous_subset :
-  in_subset id_render id_urender all_ok ex_env all_repr (eff_lsem FMsgpack ex_user) FMsgpack (TData "Node") ex_val
+  in_subset id_render id_urender all_ok ex_env ex_enums all_repr (eff_lsem FMsgpack ex_user) FMsgpack (TData "Node") ex_val
   /\ coherentb FMsgpack (eff_lsem FMsgpack ex_user) = true
-  /\ in_subset id_render id_urender all_ok ex_env all_repr (eff_lsem FToml no_user) FToml (TData "Node") ex_leaf
+  /\ in_subset id_render id_urender all_ok ex_env ex_enums all_repr (eff_lsem FToml no_user) FToml (TData "Node") ex_leaf
   /\ defaults_ok ex_env (eff_lsem FToml no_user).
 Proof.
   split; [|split; [|split]].
-  - unfold in_subset. split; [reflexivity|]. split; [reflexivity|]. split; [reflexivity|].
+  - unfold in_subset. split; [reflexivity|]. split; [reflexivity|]. split; [reflexivity|]. split; [reflexivity|].
     eexists. split; [vm_compute; reflexivity | vm_compute; reflexivity].
   - reflexivity.
-  - unfold in_subset. split; [reflexivity|]. split; [reflexivity|]. split; [reflexivity|].
+  - unfold in_subset. split; [reflexivity|]. split; [reflexivity|]. split; [reflexivity|]. split; [reflexivity|].
     eexists. split; [vm_compute; reflexivity | vm_compute; reflexivity].
   - intro H. reflexivity.
 Qed.
@@ -114,10 +129,10 @@ Qed.
 (* the msgpack tree keeps the bytearray native (handed back as bytes), renders `raw` by the caller's
    strategy, and the whole value - recursion, discriminated union, Any - decodes back *)
 Example C04_nonvacuous_trees :
-  exists b, pack id_render id_urender ex_env (eff_lsem FMsgpack ex_user) ex_val "" (TData "Node") = Ok b
+  exists b, pack id_render id_urender ex_env ex_enums (eff_lsem FMsgpack ex_user) ex_val "" (TData "Node") = Ok b
     /\ lookup "blob" (match norm id_render FMsgpack b with BDict l => l | _ => [] end) = Some (BNat KBytes "ab")
     /\ lookup "raw" (match b with BDict l => l | _ => [] end) = Some (BStr "00")
     /\ lookup "opt" (match b with BDict l => l | _ => [] end) = Some BNone
-    /\ unpack id_parse_leaf id_uparse ex_env (eff_lsem FMsgpack ex_user) (norm id_render FMsgpack b) "" (TData "Node")
+    /\ unpack id_parse_leaf id_uparse ex_env ex_enums (eff_lsem FMsgpack ex_user) (norm id_render FMsgpack b) "" (TData "Node")
        = Ok ex_val.
 Proof. eexists. split; [vm_compute; reflexivity|]. repeat split; vm_compute; reflexivity. Qed.
